@@ -2,9 +2,9 @@ SPEC = dict(
     id="C15",
     bin="c15",
     bins=["c15", "c15f"],
-    props=["C15/Props.v", "C15/FloatProps.v"],
+    props=["C15/Props.v", "C15/FloatProps.v", "C15/OtRoundProps.v"],
     coq_dir="C15",
-    coq_targets=["C15/Proofs.vo", "C15/Examples.vo", "C15/FloatProofs.vo", "C15/FloatExamples.vo"],
+    coq_targets=["C15/Proofs.vo", "C15/Examples.vo", "C15/FloatProofs.vo", "C15/FloatExamples.vo", "C15/OtRoundProofs.vo", "C15/OtRoundExamples.vo"],
     allowed_axioms=["ClassicalDedekindReals.sig_forall_dec", "ClassicalDedekindReals.sig_not_dec",
                     "FunctionalExtensionality.functional_extensionality_dep", "Classical_Prop.classic"],
     level_text=("Unbounded Coq theorems (all i32 / all byte patterns) about an executable model of font-types' "
@@ -13,7 +13,7 @@ SPEC = dict(
                 "width and the 24-bit types, 24-bit saturation, 16.16->2.14/26.6/i32 conversions as the spec prescribes. "
                 "Float clauses: symbolic Flocq proofs that to_f64/to_f32 are exact and from_fXX(to_fXX(x)) = x for ALL values of Fixed, "
                 "F26Dot6 (binary64) and F2Dot14/F4Dot12/F6Dot10 (binary32), and that from_fXX rounds to nearest whenever its own +-0.5 "
-                "addition is exact (sharp: the F-3 knife-edge witness). The models are tied to the code on every run by evaluating them "
+                "addition is exact (sharp: the F-3 knife-edge witness); OtRound `(v + 0.5).floor()` equals half-up rounding floor(v + 1/2) of the real value for EVERY finite f32/f64 up to 2^(prec-1) - 1 except the single input pred(1/2) (sharp, generic in the float format; finding F-25), with the i16/u16 forms saturating that value. The models are tied to the code on every run by evaluating them "
                 "with vm_compute on ~60k boundary-dense and random operand tuples the real functions were run on (floats bit-exactly)."),
     level_note=("Trusted: Coq kernel; the hand-written model coq/C15/Model.v (its agreement with font-types is checked, not proved); "
                 "the harness generator. Float theorems rest on Flocq and therefore on the standard-library classical-reals axioms named in allowed_axioms; "
@@ -24,7 +24,7 @@ SPEC = dict(
               "font-types/src/raw.rs: to_be_bytes/from_be_bytes of 16/32/64-bit scalars",
               "font-types/src/fixed.rs float_conv!: to_f32/to_f64/from_f32/from_f64 for all five fixed types (Flocq binary32/binary64)",
               "write-fonts/src/round.rs OtRound for f64/f32 -> f64/f32/i16/u16"],
-    not_covered=["write-fonts OtRound: executable Flocq model tied by correspondence, no theorem beyond the model",
+    not_covered=["OtRound beyond 2^(prec-1) - 1 (float -> float form off by one on odd integers, F-25), kurbo Point/Vec2 wrappers: correspondence / oracle only",
                  "from_fXX nearest-rounding is proved only under the exact-addition hypothesis; general doubles at the +-0.5 knife edge violate it (known finding F-3)",
                  "Tag, GlyphId, NameId, Offset*, Version newtypes: plain wrappers over the modelled integer codecs"],
     assumptions=["Rust integer semantics as in coq/Lib/RustInt.v (two's complement `as` casts, arithmetic >> on signed types)"],
